@@ -365,6 +365,18 @@ class Interp:
             return self.convert(arg)
         if isinstance(f, ast.Name) and f.id == self.limit:
             return self.value(e.args[0], shape, env)
+        if isinstance(f, ast.Name) and isinstance(env.get(f.id), tuple) \
+                and env[f.id][0] == 'lambda' and not e.keywords:
+            lam = env[f.id][1]
+            names = [a.arg for a in lam.args.args]
+            if len(names) == len(e.args):
+                env2 = dict(env)
+                for nm, a in zip(names, e.args):
+                    v = self.value(a, shape, env)
+                    if isinstance(v, tuple) and v[0] == 'pair':
+                        v = Shape('tuple', [v[1], v[2]])
+                    env2[nm] = v
+                return self.value(lam.body, shape, env2)
         if isinstance(f, ast.Attribute) and f.attr == 'items' and \
                 not e.args:
             base = self.value(f.value, shape, env)
@@ -504,6 +516,14 @@ class Interp:
             if isinstance(st, ast.Expr) and isinstance(
                     st.value, ast.Constant):
                 continue
+            if isinstance(st, ast.FunctionDef):
+                # a local one-expression helper: same as a lambda
+                fb = model.strip_docstring(st.body)
+                if len(fb) == 1 and isinstance(fb[0], ast.Return) and \
+                        fb[0].value is not None and not st.decorator_list:
+                    lam = ast.Lambda(args=st.args, body=fb[0].value)
+                    env[st.name] = ('lambda', lam)
+                    continue
             raise AnalysisError('unsupported statement %s in %s' % (
                 model.norm(st)[:60], self.fi.key))
         return None
